@@ -256,9 +256,12 @@ async def run_serial(ctx) -> None:
         if t.exception() is not None:
             raise t.exception()
     await asyncio.sleep(1.0)
-    for t in reopeners:
+    for t in reopeners:  # (an orderly restart runs to its end: closing a transport that is still connecting is not what is tested)
         if not t.done():
-            t.cancel()
+            try:
+                await asyncio.wait_for(t, 120)
+            except Exception:  # noqa
+                pass
     box[0].close()
     await asyncio.sleep(0.1)
 
